@@ -25,6 +25,7 @@ func (f *Frame) invEnv(h *ssa.BasicBlock, st *State, phis map[*ssa.Phi]Term) *Sp
 	env.resolver = func(name string) (SVal, bool) {
 		return f.resolveSourceName(name, h, st, phis)
 	}
+	env.resolverFirst = true
 	return env
 }
 
